@@ -17,12 +17,75 @@ def xor_summary(it, f, args, kwargs, node):
     return t_xor(args[0], args[1])
 
 
+class CeilDomain:
+    """decides comparisons between integer-linear expressions in L = len_in_bytes and b = digest size under the case split
+    ell = ceil(L / b), i.e. (ell − 1)·b < L ≤ ell·b, with b ≥ 1 (and block size ≥ 1, lengths ≥ 0)"""
+
+    def __init__(self, L, b, ell, concrete_L=None):
+        self.L, self.b, self.ell, self.cL = L, b, ell, concrete_L
+
+    def _form(self, t):
+        from ..digits import linform
+        c, m = linform(t)
+        al = m.pop(self.L, 0) if isinstance(self.L, Term) else 0
+        be = m.pop(self.b, 0)
+        for a in list(m):
+            # other atoms: lengths and sizes are >= 0 — only usable when their coefficient sign settles the question
+            if not (isinstance(a, Term) and a.op in ("len", "digest_size", "block_size")):
+                return None
+        return al, be, c, m
+
+    def _sign_lt0(self, al, be, c, rest):
+        """is al·L + be·b + c + Σ rest_i·n_i < 0 for all admissible values?  True / False / None"""
+        ell = self.ell
+        # upper bound
+        hi_ok = lo_ok = None
+        if all(v <= 0 for v in rest.values()):
+            if al == 0:
+                hi = (be, c)
+            elif al > 0:
+                hi = (al * ell + be, c)                      # L <= ell·b
+            else:
+                hi = (al * (ell - 1) + be, al + c)           # L >= (ell−1)·b + 1
+            if hi[0] <= 0 and hi[0] + hi[1] < 0:             # b >= 1
+                hi_ok = True
+        if all(v >= 0 for v in rest.values()):
+            if al == 0:
+                lo = (be, c)
+            elif al > 0:
+                lo = (al * (ell - 1) + be, al + c)
+            else:
+                lo = (al * ell + be, c)
+            if lo[0] >= 0 and lo[0] + lo[1] >= 0:
+                lo_ok = True
+        if hi_ok:
+            return True
+        if lo_ok:
+            return False
+        return None
+
+    def decide(self, it, atom):
+        if not (isinstance(atom, Term) and atom.op == "lt"):
+            return None
+        from ..term import t_arith
+        f = self._form(t_arith("sub", atom.args[0], atom.args[1]))
+        if f is None:
+            return None
+        al, be, c, rest = f
+        if self.ell == 0 and al != 0:
+            return None
+        return self._sign_lt0(al, be, c, rest)
+
+    def assume(self, it, atom, truth):
+        pass
+
+
 def run(chk, repo, tier):
     chk.explanation = ("expand_message_xmd is evaluated with msg, DST, len_in_bytes and the hash function (digest and block "
                        "size) symbolic, after a case split on ell; hash_to_field_FQ/FQ2 with SHA-256 for every admissible count; "
                        "outputs are compared with the RFC 9380 terms; the two parameter guards are computed as exact sets.")
     ells = [0, 1, 2, 3, 4, 128, 254, 255] if tier == "quick" else list(range(0, 256))
-    chk.rule("C15.R1", "len(DST) > 255 and ell > 255 are refused (exact sets) before any use; xor is the byte-wise xor", 3)
+    chk.rule("C15.R1", "len(DST) > 255 and ell > 255 are refused (exact sets) before any use, nothing else is; xor is the byte-wise xor", 4)
     chk.rule("C15.R2", "output term equals RFC 9380 §5.3.1 for every ell (Z_pad from the block size, ell from the digest size)", len(ells))
     chk.rule("C15.R3", "hash_to_field: element i, coordinate j = OS2IP(uniform[L(j+im) : L(j+im)+L]) mod p, L = 64, every count", 4)
     chk.assumptions += ["byte strings compared in the free monoid over atoms", "hashlib is what its names say; digest sizes of "
@@ -80,6 +143,7 @@ def run(chk, repo, tier):
                  t_arith("floordiv", t_arith("add", L, t_arith("sub", dsz, 1)), dsz),
                  t_arith("sub", 0, t_arith("floordiv", t_arith("sub", 0, L), dsz))]
     dst_accept = []
+    spurious = []
     dst_use_bad = []
     ell_ok = True
     ell_msgs = []
@@ -88,7 +152,8 @@ def run(chk, repo, tier):
 
         def run1(it):
             return it.call_func(xm, [msg, dst, Lc, Hf], {})
-        paths = enumerate_paths(w, run1, int_bindings={k: ell for k in ell_forms}, summaries={xorf.qualname: xor_summary})
+        paths = enumerate_paths(w, run1, int_bindings={k: ell for k in ell_forms}, summaries={xorf.qualname: xor_summary},
+                                domain=CeilDomain(L, dsz, ell))
         rets = [p for p in paths if p.outcome == "return"]
         if ell > 255:
             if rets:
@@ -103,6 +168,10 @@ def run(chk, repo, tier):
             facts = [(a_, t) for a_, t, _ in p.facts]
             lo, hi, holes, others = interval_of_facts(facts, t_len(dst))
             lo = max(lo, 0)
+            if p.outcome == "raise" and not lo >= 256:
+                # ell <= 255 here: the only admissible refusal is the over-long tag
+                spurious.append(f"ell = {ell}: raises {p.value.clsname()} at {p.value.where} although len(DST) <= 255 is possible "
+                                f"(path {' '.join(p.branch_lines()[-3:])})")
             if p.outcome == "return":
                 dst_accept.append((lo, hi))
                 for ev in p.events:
@@ -119,6 +188,8 @@ def run(chk, repo, tier):
     acc = normalise(dst_accept)
     chk.ob("C15.R1", xm.qualname, "accepted DST lengths == [0, 255]; I2OSP(len(DST), 1) only under the guard",
            acc == [(0, 255)] and not dst_use_bad, f"accepted DST lengths {show_set(acc)}; unguarded uses {dst_use_bad}", xm.where)
+    chk.ob("C15.R1", xm.qualname, "no other refusal: for len(DST) <= 255 and ell <= 255 every message and length is expanded", not spurious,
+           "; ".join(sorted(set(spurious))[:2]), xm.where)
     chk.ob("C15.R1", xm.qualname, "ell > 255 refused with ValueError, ell = ceil(len_in_bytes / digest size)", ell_ok,
            "; ".join(sorted(set(ell_msgs))) or "ell ∈ {256, 300} raise", xm.where)
     # ---- hash_to_field
